@@ -11180,8 +11180,11 @@ where
 		let channel_ready = if both_sides_on_initial_commitment_number
 			&& self.pending_splice.is_none()
 			&& self.funding.channel_transaction_parameters.splice_parent_funding_txid.is_none()
+			// If our `channel_ready` is still being held back until the initial `ChannelMonitor`
+			// persistence completes it will be sent then; we must not reveal it early here.
+			&& !(self.context.channel_state.is_monitor_update_in_progress()
+				&& self.context.monitor_pending_channel_ready)
 		{
-			// We should never have to worry about MonitorUpdateInProgress resending ChannelReady
 			self.get_channel_ready(logger)
 		} else { None };
 
